@@ -559,4 +559,153 @@ def builderRootNames (prioritized : Bool) (src : List Str) : List Str :=
   (if prioritized then prefetchLandmark else noPrefetchLandmark) ::
     src.filter fun n => !isLandmark n && n != tocTarName
 
+/-! ## Call histories on one node -/
+
+/-- One call on a directory node; `adopt` says whether go-fuse's bridge registered the returned
+inode as a child afterwards. -/
+inductive Op
+  | readdir
+  | lookup (name : Str) (adopt : Bool)
+deriving Repr
+
+inductive Ans
+  | list (r : Option (List DirEnt))
+  | res (r : LRes)
+deriving Repr
+
+def stepOp (d : Dir) (s : NodeSt) : Op → NodeSt × Ans
+  | .readdir => ((readdirSt d s).1, .list (readdirSt d s).2)
+  | .lookup name ad =>
+    let r := lookupSt d s name
+    ((if ad then adopt d r.1 name r.2 else r.1), .res r.2)
+
+def run (d : Dir) : NodeSt → List Op → List Ans
+  | _, [] => []
+  | s, o :: os => (stepOp d s o).2 :: run d (stepOp d s o).1 os
+
+/-- A Lookup answer without the two attribute fields that differ between a fresh whiteout
+(`entryToWhAttr`) and one found in go-fuse's child map (`entryToAttr` of the `.wh.` entry); the
+kernel-visible type is the StableAttr type (S_IFCHR) in both cases. -/
+def LRes.stable : LRes → LRes
+  | .whiteout id _ ino _ => .whiteout id S_IFCHR ino 0
+  | r => r
+
+def Ans.stable : Ans → Ans
+  | .res r => .res r.stable
+  | a => a
+
+/-- The answer of a call on a node nobody has touched yet. -/
+def pureAns (d : Dir) : Op → Ans
+  | .readdir => .list (readdir d)
+  | .lookup name _ => .res (lookupSt d {} name).2
+
+/-- The caches only hold what the metadata says. -/
+def Inv (d : Dir) (s : NodeSt) : Prop :=
+  (∀ ents, s.memo = some ents → readdir d = some ents) ∧
+  (∀ n c w, lookupKid s.kids n = some (c, w) →
+    (w = false → getChild d.children n = some c) ∧
+    (w = true → getChild d.children n = none ∧ getChild d.children (mkWh n) = some c))
+
+/-- The metadata reader never lists a name twice (children come from a Go map). -/
+def NoDupNames (d : Dir) : Prop := (d.children.map (·.name)).Nodup
+
+/-- No whiteout of this directory targets a name that `Lookup` refuses outright: a name that itself
+begins with `.wh.`, or (in the root) a landmark name. -/
+def WhTargetsPlain (d : Dir) : Prop :=
+  ∀ c ∈ d.children, ∀ t, whOf d.isRoot c.name = some t →
+    isWh t = false ∧ (d.isRoot && isLandmark t) = false
+
+def lookupPure (d : Dir) (n : Str) : LRes := (lookupSt d {} n).2
+
+/-- The names `listing_lookup_agree` talks about: not `.`/`..`, not the state directory of the root. -/
+def Plain (d : Dir) (n : Str) : Prop := isDots n = false ∧ (d.isRoot && n == stateDirName) = false
+
+/-! ### Name-level view of one layer directory, and the domain of the composition theorem -/
+
+/-- What a layer directory says about the name `x`. -/
+inductive Cls
+  | whiteout
+  | file (a : Attr)
+  | dir (a : Attr) (k : List (Str × Tree))
+  | absent
+
+def classify (all : List (Str × Tree)) (x : Str) : Cls :=
+  match lookupReal all x with
+  | some (.file a) => .file a
+  | some (.dir a k) => .dir a k
+  | none => if hasWhiteoutFor all x then .whiteout else .absent
+
+/-- The outcome of applying a stack of layer directories (top first) at the name `x`. -/
+inductive Sub
+  | absent
+  | file (a : Attr)
+  | dirs (ds : List DirT)
+
+/-- OCI application, name by name: the topmost layer that mentions `x` decides; a directory keeps
+merging with what the layers below leave at `x` unless its parent is opaque. -/
+def sub (x : Str) : List DirT → Sub
+  | [] => .absent
+  | d :: rest =>
+    match classify d.2 x with
+    | .whiteout => .absent
+    | .file f => .file f
+    | .dir a' k' =>
+      .dirs ((a', k') :: (if hasName d.2 opaqueMarker then [] else
+        match sub x rest with
+        | .dirs ds => ds
+        | _ => []))
+    | .absent => if hasName d.2 opaqueMarker then .absent else sub x rest
+
+/-- The directory obtained by applying the layer directories `tl` (top first) in order, bottom up. -/
+def appliedOf : List DirT → Option Tree
+  | [] => none
+  | d :: rest => some (ociApplyNode (.dir d.1 d.2) (appliedOf rest))
+
+def serveDir (om : OpaqueMode) (d : DirT) : LowerDir :=
+  (d.1, (if hasName d.2 opaqueMarker then opaqueXattrs om else []), serveKids om d.2 d.2)
+
+/-- The served mode covers the xattr namespace the kernel reads. -/
+def compat (om : OpaqueMode) (kx : KX) : Bool := (opaqueXattrs om).contains (kxName kx)
+
+mutual
+/-- The domain of `overlay_equals_oci`, checked at every directory of the layer:
+  * no directory has both a whiteout `.wh.x` and a real directory `x` (the property's exclusion);
+  * no real entry is a 0/0 character device, no real directory carries the kernel's opaque xattr
+    itself (overlayfs would read both as whiteout / opaque: plain lower directories cannot express them). -/
+def okTree (kx : KX) : Tree → Bool
+  | .file a => !isWhiteoutDev a
+  | .dir a kids => (xlookup a.xattrs (kxName kx) != some opaqueXattrValue) && okKids kx kids kids
+def okKids (kx : KX) (all : List (Str × Tree)) : List (Str × Tree) → Bool
+  | [] => true
+  | (n, t) :: rest =>
+    (isWh n || (okTree kx t && !(t.isDir && hasWhiteoutFor all n))) && okKids kx all rest
+end
+
+def stripD (d : DirT) : DirT := (d.1, d.2.filter fun p => !isLandmark p.1)
+
+def DirT.tree (d : DirT) : Tree := .dir d.1 d.2
+
+/-- A layer (given by its root directory) is in the domain. -/
+def LayerOK (kx : KX) (d : DirT) : Prop := okTree kx (stripD d).tree = true
+
+/-- The children of an applied directory. -/
+def kidsOf : Option Tree → List (Str × Tree)
+  | some (.dir _ k) => k
+  | _ => []
+
+/-- The served form of a name-level outcome. -/
+def Sub.serve (om : OpaqueMode) : Sub → LSub
+  | .absent => .absent
+  | .file a => .file a
+  | .dirs ds => .dirs (ds.map (serveDir om))
+
+/-- The tree a name-level outcome stands for. -/
+def Sub.tree : Sub → Option Tree
+  | .absent => none
+  | .file f => some (.file f)
+  | .dirs ds => appliedOf ds
+
+/-- Every directory of the stack is in the domain. -/
+def OkDirs (kx : KX) (tl : List DirT) : Prop := ∀ d ∈ tl, okTree kx d.tree = true
+
 end SV.Overlay
